@@ -108,6 +108,10 @@ type Sim struct {
 	harnessErr string
 	sample     any
 
+	Phase int  // multi-phase scenarios: index of the current bubble
+	Again bool // set by the scenario to request another phase
+	Carry any  // state carried across phases
+
 	yieldSeed    uint64
 	yieldDensity int // per 1000
 	yieldCount   map[int]int
@@ -425,6 +429,23 @@ func RunOne(t *testing.T, o RunOpts) (res *RunResult) {
 	tape.trace = o.Trace
 	s := &Sim{T: tape, Prop: o.Prop, Tier: o.Tier, t: t, stats: map[string]int{}, trace: o.Trace, yieldCount: map[int]int{}}
 	res = &RunResult{Prop: o.Prop, Seed: o.Seed}
+	defer func() { s.fill(res) }()
+	// A scenario may ask for further phases (s.Again): each phase runs in a fresh bubble with a
+	// fresh network, broker and task set; violations, statistics, the log and s.Carry persist.
+	for {
+		s.Again = false
+		s.runBubble(t, fn, res)
+		if !s.Again || res.Harness != "" || s.harnessErr != "" {
+			break
+		}
+		s.Phase++
+		s.tasks, s.ops, s.Net, s.Broker = nil, nil, nil, nil
+		s.yieldCount = map[int]int{}
+	}
+	return res
+}
+
+func (s *Sim) runBubble(t *testing.T, fn scenarioFunc, res *RunResult) {
 	curSim = s
 	installGlobals(s)
 	defer func() {
@@ -438,7 +459,6 @@ func RunOne(t *testing.T, o RunOpts) (res *RunResult) {
 				res.Harness = "panic outside run: " + msg + "\n" + string(debug.Stack())
 			}
 		}
-		s.fill(res)
 	}()
 	synctest.Test(t, func(t *testing.T) {
 		s.start = time.Now()
@@ -449,7 +469,6 @@ func RunOne(t *testing.T, o RunOpts) (res *RunResult) {
 		}()
 		fn(s)
 	})
-	return res
 }
 
 func (s *Sim) fill(res *RunResult) {
